@@ -4,7 +4,8 @@ package eventrecorder
 // the real recordEvent / getEventsList / saveEvents / loadEvents / expireOldEvents are run on every history of
 // one user with at most 5 events (4 in the quick tier) over 4 event kinds, each event inside or outside the retention window.
 // Expected: after save + load the events inside the window come back in the same order (newest first as
-// getEventsList reports them); events outside the window are dropped; nothing else changes.
+// getEventsList reports them); events outside the window are dropped; nothing else changes; and when the oldest
+// loaded entry ages out afterwards, the expiry run of the restarted daemon drops that entry only.
 
 import (
 	"fmt"
@@ -88,6 +89,21 @@ func TestVerifBoundedHistoryRoundTrip(t *testing.T) {
 				bad++
 				if bad <= 3 {
 					fmt.Printf("BOUNDED-VIOLATION history of %d events recorded oldest-first %+v: reported before the restart (newest first, retained) %+v, after save+load %+v\n", n, recorded, want, got)
+				}
+				continue
+			}
+			// the restarted daemon goes on with the loaded history: when its oldest entry ages out, the expiry run
+			// drops that entry and nothing else (the loaded list must be linked in both directions for that)
+			if l := loaded["user"]; l != nil && l.oldest != nil {
+				l.oldest.CreateTime = old
+				sr2 := &EventRecorder{eventsMap: loaded}
+				sr2.expireOldEvents()
+				after := verifHistory(loaded["user"])
+				if !reflect.DeepEqual(append([]EventType{}, after...), append([]EventType{}, want[:len(want)-1]...)) && !(len(after) == 0 && len(want) == 1) {
+					bad++
+					if bad <= 3 {
+						fmt.Printf("BOUNDED-VIOLATION history %+v after save+load: its oldest entry aged out, the expiry run left %+v, expected %+v\n", want, after, want[:len(want)-1])
+					}
 				}
 			}
 		}
